@@ -115,3 +115,18 @@ func Addr(name string) multiaddr.Multiaddr {
 	h := sha256.Sum256([]byte(name))
 	return multiaddr.StringCast(fmt.Sprintf("/ip4/8.%d.%d.%d/tcp/%d", h[0], h[1], h[2]|1, 1024+int(h[3])))
 }
+
+// nestKey signs like the key it wraps, after having run `before`: what else may happen between the moment a payload to be
+// signed has been encoded and the moment its signature is made (other values being signed by the same code).
+type nestKey struct {
+	crypto.PrivKey
+	before func()
+}
+
+func (n nestKey) Sign(b []byte) ([]byte, error) {
+	n.before()
+	return n.PrivKey.Sign(b)
+}
+
+// Nest wraps k so that before runs inside every Sign.
+func Nest(k crypto.PrivKey, before func()) crypto.PrivKey { return nestKey{k, before} }
